@@ -207,13 +207,13 @@ def gen_case(rng, tier, index):
     if rng.random() < 0.03 and mode in ("save", "with", "with_exc", "save_twice"):
         # long worklists (block / buffer boundaries of a chunked writer): 1000..5000 records
         n = rng.choice([999, 1000, 1001, 1024, 1500, 2048, 2500, 4097, 5000])
-    pre = rng.choice(["absent", "longer", "longer", "shorter", "shorter", "same"])
+    pre = rng.choice(["absent", "longer", "longer", "shorter", "shorter", "same", "same_lf", "same_cr"])
     if n == 0 and pre == "shorter":
         pre = "longer"
     case = {
         "cls": cls, "diti_mode": diti, "mode": mode, "ops": _gen_ops(rng, cls, diti, n), "pre": pre,
         "pre_fill": rng.choice(["records", "junk", "lf_lines"]), "pre_extra": rng.choice([1, 2, 7, 50, 400, 5000]),
-        "path_kind": rng.choice(["str", "path"]),
+        "path_kind": rng.choice(["str", "path", "str", "path", "relative"]),
         "name": rng.choice(BAD_NAMES if mode.startswith("badname") else GOOD_NAMES),
     }
     if mode == "save_twice":
@@ -311,6 +311,9 @@ def _pre_bytes(case, preview_records):
         return None
     if pre == "same":
         return exp
+    if pre in ("same_lf", "same_cr"):
+        # the same records, written by another tool / normalised by a checkout: other line terminator
+        return ("\n" if pre == "same_lf" else "\r").join(preview_records).encode("latin-1")
     if pre == "longer":
         if fill == "junk":
             return exp + bytes([0xAA, 0x0D, 0x0A, 0xFF]) * ((extra + 3) // 4)
@@ -412,14 +415,22 @@ def run_case(ctx, case):
     base = _scratch()
     att = attach.current()
     _cleanup_dir(base)
+    cwd = os.getcwd()
     try:
+        if case.get("path_kind") == "relative":
+            os.chdir(base)
+            ctx.count("path:bare_relative_name")
         _run(ctx, case, base, att)
     finally:
+        os.chdir(cwd)
         _cleanup_dir(base)
         att.fs_events.clear()
 
 
 def _arg(case, path: Path):
+    if case["path_kind"] == "relative":
+        # a bare file name, resolved against the working directory (run_case changes into the scratch directory)
+        return os.path.basename(str(path))
     return str(path) if case["path_kind"] == "str" else Path(path)
 
 
